@@ -91,19 +91,7 @@ def self_fields(t, out=None):
 
 
 def error_blocks(fn):
-    """blocks on which the function is committed to returning Err: `?` residual conversion or `_0 = Err(..)`"""
-    out = set()
-    for bi, b in enumerate(fn.blocks):
-        t = b["term"]
-        if t["k"] == "call":
-            p = (t["func"].get("fn") or {}).get("path", "")
-            if p.endswith("FromResidual::from_residual") and t["dest"]["l"] == 0:
-                out.add(bi)
-        for s in b["stmts"]:
-            if s["k"] == "assign" and s["lhs"]["l"] == 0 and not s["lhs"].get("p") and s["rv"]["k"] == "agg" \
-                    and s["rv"].get("variant") == "Err":
-                out.add(bi)
-    return out
+    return fn.error_blocks()
 
 
 def success_returns_avoiding(fn, avoid):
@@ -136,7 +124,7 @@ def db_fn(F, method):
     db = roles.database_struct(F)
     cands = [f for f in F.fns.values() if f.kind == "method" and f.j.get("self_ty") == db["name"]
              and f.j.get("method") == method and not f.j.get("trait")]
-    return cands[0] if len(cands) == 1 else None
+    return F.inlined(cands[0]) if len(cands) == 1 else None
 
 
 # ---------------------------------------------------------------- TABLES
@@ -261,7 +249,9 @@ def clause_derived_caches_coherent(R, F):
     tfs = {f for (f, _, _) in roles.table_fields(F)}
     caches = [fd["name"] for fd in db["variants"][0]["fields"] if fd["name"] not in tfs and not fd["ty"].startswith("std::option::Option<db::")]
     caches = [c for c in caches if c not in tfs]
-    dmethods = [f for f in F.fns.values() if f.kind == "method" and f.j.get("self_ty") == db["name"] and not f.j.get("trait") and f.blocks]
+    from facts import is_private_helper
+    dmethods = [F.inlined(f) for f in F.fns.values() if f.kind == "method" and f.j.get("self_ty") == db["name"] and not f.j.get("trait") and f.blocks
+                and not is_private_helper(f)]
     pairs = []     # (cache field, shadowed table field)
     for f in dmethods:
         if f.j["mir"]["argc"] != 1:
@@ -348,14 +338,14 @@ def clause_commit_order(R, F):
         if field == src:
             continue
         for c in commits.get(field, []):
-            R.ob(fn.dominates(hb, c.bb) and hb != c.bb, "DOM-order", c.where(), "DOM-order|commit_changes|%s<%s" % (src, field),
+            R.ob(fn.sdominates(hb, c.bb) and hb != c.bb, "DOM-order", c.where(), "DOM-order|commit_changes|%s<%s" % (src, field),
                  "commit of table %s is not dominated by the commit of the table the height is read from after a reopen (%s): a crash in "
                  "between reopens at a height below rows that are already persisted, and a reorg to that height is a no-op that leaves "
                  "them behind" % (field, src),
                  sample={"rule": "DOM-order", "first": src, "then": field})
     for f2, cs in flush.items():
         for c in cs:
-            R.ob(fn.dominates(c.bb, hb), "DOM-order", c.where(), "DOM-order|commit_changes|flush<%s" % src,
+            R.ob(fn.sdominates(c.bb, hb), "DOM-order", c.where(), "DOM-order|commit_changes|flush<%s" % src,
                  "flush of %s does not precede the height table commit" % f2, sample={"rule": "DOM-order", "first": f2 + ".flush", "then": src})
     # clear_caches after all commits
     cc = [c for c in fn.calls() if (c.method or "") == "clear_caches" and not fn.is_cleanup(c.bb)]
@@ -364,7 +354,7 @@ def clause_commit_order(R, F):
     for c in cc:
         for fld, cs in commits.items():
             for x in cs:
-                R.ob(fn.dominates(x.bb, c.bb), "DOM-order", c.where(), "DOM-order|commit_changes|%s<clear" % fld,
+                R.ob(fn.sdominates(x.bb, c.bb), "DOM-order", c.where(), "DOM-order|commit_changes|%s<clear" % fld,
                      "caches are dropped before %s is committed" % fld)
 
 
@@ -379,7 +369,7 @@ def clause_reorg_order(R, F):
          "D::reorg does not commit on every success path")
     for c in cc:
         for x in all_reorg:
-            R.ob(fn.dominates(x.bb, c.bb), "DOM-order", x.where(), "DOM-order|reorg|%s<commit" % self_fields(origin(fn, x.args[0]))[0],
+            R.ob(fn.sdominates(x.bb, c.bb), "DOM-order", x.where(), "DOM-order|reorg|%s<commit" % self_fields(origin(fn, x.args[0]))[0],
                  "a table reorg does not precede commit_changes")
     # depth guard
     guard = None
@@ -399,7 +389,7 @@ def clause_reorg_order(R, F):
              "GUARD|D::reorg|depth-form", "depth check is `%s` on the error edge; expected `N - max + 10 + 1 <= 0` from MAX_REORG_HISTORY_SIZE" % fm.text(_role_dreorg),
              sample={"rule": "GUARD", "fn": "D::reorg", "error_edge": fm.text(_role_dreorg)})
         for x in all_reorg:
-            R.ob(fn.dominates(b, x.bb), "DOM-before", x.where(), "DOM-before|D::reorg|depth<%s" % self_fields(origin(fn, x.args[0]))[0],
+            R.ob(fn.sdominates(b, x.bb), "DOM-before", x.where(), "DOM-before|D::reorg|depth<%s" % self_fields(origin(fn, x.args[0]))[0],
                  "table reorg is not dominated by the depth check")
         # max comes from the global table under the one key
         t = [a for a in fm.lin.terms if _role_dreorg(a) == "max"][0]
@@ -435,7 +425,7 @@ def clause_reorg_height_last(R, F):
             continue
         for c in reorgs.get(field, []):
             for h in hs:
-                R.ob(fn.dominates(c.bb, h.bb) and c.bb != h.bb, "DOM-order", h.where(), "DOM-order|D::reorg|%s<%s" % (field, src),
+                R.ob(fn.sdominates(c.bb, h.bb) and c.bb != h.bb, "DOM-order", h.where(), "DOM-order|D::reorg|%s<%s" % (field, src),
                      "the height table %s is rolled back before state table %s: a crash in between reopens at the target height with "
                      "state of orphaned blocks still present, and a reorg to that height is then a no-op" % (src, field),
                      sample={"rule": "DOM-order", "fn": "D::reorg", "first": field, "then": src})
@@ -619,9 +609,11 @@ def clause_max_monotone(R, F):
     """the store of the recorded maximum must be conditional on new > stored (or go through max)"""
     db = roles.database_struct(F)
     sites = []
-    for fn in F.fns.values():
-        if fn.j.get("self_ty") != db["name"] or not fn.blocks:
+    from facts import is_private_helper
+    for fn0 in F.fns.values():
+        if fn0.j.get("self_ty") != db["name"] or not fn0.blocks or is_private_helper(fn0):
             continue
+        fn = F.inlined(fn0)
         for c in fn.calls():
             if (c.method or "") == "set" and "ConfigDatabase" in (c.self_ty or c.target_path or "") and not fn.is_cleanup(c.bb):
                 k = show(origin(fn, c.args[1]))
@@ -739,7 +731,7 @@ def _tt(F, suffix):
 def _tfn(F, tname, method):
     c = [f for f in F.fns.values() if f.kind == "method" and f.j.get("method") == method
          and (f.j.get("self_ty") or "").split("<")[0] == tname and not f.j.get("trait")]
-    return c[0] if len(c) == 1 else None
+    return F.inlined(c[0]) if len(c) == 1 else None
 
 
 def recv_field(fn, c):
@@ -796,7 +788,7 @@ def clause_read_merge(R, F, scans=("get_range", "all")):
         if ok:
             # the disk read must be unreachable once the `Some` edge of the cache lookup is taken, and dominated by the lookup
             cg = cache_get[0]
-            ok = fn.dominates(cg.bb, disk_get[0].bb)
+            ok = fn.sdominates(cg.bb, disk_get[0].bb)
             # the decision "is there an in-memory entry for this key" : a switch on the discriminant of the cache lookup's
             # result, possibly through presence-preserving adapters (map / as_ref / cloned / copied).  `and_then` / `flatten`
             # / `filter` conflate "no entry" with "entry whose latest value is None" and are not accepted.
@@ -830,7 +822,7 @@ def clause_read_merge(R, F, scans=("get_range", "all")):
             hit_reach = set()
             for s2 in some_targets:
                 hit_reach |= fn.reachable(s2)
-            ok = ok and dec is not None and bool(some_targets) and disk_get[0].bb not in hit_reach and fn.dominates(dec, disk_get[0].bb)
+            ok = ok and dec is not None and bool(some_targets) and disk_get[0].bb not in hit_reach and fn.sdominates(dec, disk_get[0].bb)
         R.ob(ok, "READ-MERGE", fn.where(), "READ-MERGE|%s.%s" % (tsuf, meth),
              "%s::%s does not read the cache first and the disk only on a cache miss" % (tsuf, meth),
              sample={"rule": "READ-MERGE point read", "fn": fn.name})
@@ -846,14 +838,14 @@ def clause_read_merge(R, F, scans=("get_range", "all")):
         mem = [c for c in fn.calls() if (c.method or "") in ("keys", "iter", "into_iter", "values") and recv_field(fn, c) == "cache"
                and not fn.is_cleanup(c.bb)]
         ok = bool(disk) and bool(mem) and must_pass_on_success(fn, [disk[0].bb]) and must_pass_on_success(fn, [mem[0].bb]) \
-            and fn.dominates(disk[0].bb, mem[0].bb)
+            and fn.sdominates(disk[0].bb, mem[0].bb)
         R.ob(ok, "READ-MERGE", fn.where(), "READ-MERGE|table.%s" % meth,
              "%s does not merge the persisted rows first and the cached rows over them on every path" % meth,
              sample={"rule": "READ-MERGE scan", "fn": fn.name, "disk": scan, "then": "self.cache"})
         # a cached history whose latest value is None (uncommitted unset) must hide the persisted row:
         # insert on Some and remove on None, on opposite edges of the latest() test, after the cache iteration starts
-        ins = [c for c in fn.calls() if (c.method or "") == "insert" and not fn.is_cleanup(c.bb) and mem and fn.dominates(mem[0].bb, c.bb)]
-        rem = [c for c in fn.calls() if (c.method or "") == "remove" and not fn.is_cleanup(c.bb) and mem and fn.dominates(mem[0].bb, c.bb)]
+        ins = [c for c in fn.calls() if (c.method or "") == "insert" and not fn.is_cleanup(c.bb) and mem and fn.sdominates(mem[0].bb, c.bb)]
+        rem = [c for c in fn.calls() if (c.method or "") == "remove" and not fn.is_cleanup(c.bb) and mem and fn.sdominates(mem[0].bb, c.bb)]
         okr = False
         for r in rem:
             for (a, s2) in control_deps(fn).get(r.bb, set()):
@@ -865,7 +857,7 @@ def clause_read_merge(R, F, scans=("get_range", "all")):
                             okr = True
         # equivalent idiom: the merged result is filtered afterwards by `retain(|k, _| <cache says k still has a value>)`
         for c in fn.calls():
-            if (c.method or "") == "retain" and not fn.is_cleanup(c.bb) and mem and (fn.dominates(disk[0].bb, c.bb) if disk else False):
+            if (c.method or "") == "retain" and not fn.is_cleanup(c.bb) and mem and (fn.sdominates(disk[0].bb, c.bb) if disk else False):
                 for cid in ((c.func or {}).get("arg_cl") or []):
                     g = F.fns.get(cid)
                     if g is not None and any((x.method or "") == "latest" for gg in [g] + F.descendants(g.id) for x in gg.calls()):
@@ -960,7 +952,7 @@ def clause_blockdb_commit(R, F):
          "BlockDatabase::commit does not flush on every success path", sample={"rule": "DOM-all", "fn": "blockdb.commit", "step": "flush"})
     for f in fl:
         for p in puts:
-            R.ob(not fn.dominates(f.bb, p.bb), "DOM-order", f.where(), "DOM-order|blockdb.commit|put<flush", "flush precedes the puts")
+            R.ob(not fn.sdominates(f.bb, p.bb), "DOM-order", f.where(), "DOM-order|blockdb.commit|put<flush", "flush precedes the puts")
 
 
 def clause_retrieve_cache(R, F):
@@ -1005,7 +997,7 @@ def clause_retrieve_cache(R, F):
     # ... and it is consulted unconditionally: every insertion of a history for an uncached key is dominated by the
     # cache_db lookup (a key deleted from the value table still has a history that a rollback needs)
     for c in ins:
-        R.ob(any(fn.dominates(h.bb, c.bb) for h in hist), "DOM-before", c.where(), "DOM-before|retrieve_cache|history<insert",
+        R.ob(any(fn.sdominates(h.bb, c.bb) for h in hist), "DOM-before", c.where(), "DOM-before|retrieve_cache|history<insert",
              "a history is put into the cache on a path that did not look the key up in the persisted histories (cache_db): "
              "an existing history can be replaced by a fresh one, and a rollback across that point restores the wrong value",
              sample={"rule": "DOM-before", "fn": "retrieve_cache", "a": "cache_db.get(key)", "b": "cache.insert(key, history)"})
@@ -1080,7 +1072,7 @@ def clause_engine_commit_clear(R, F):
             g = F.fns.get(cid)
             if g is not None and any((x.method or "") in ("write_fn", "write_fn_unchecked") and ".db" in show(origin(gg, x.args[0])) for gg in [g] + F.descendants(g.id) for x in gg.calls()):
                 nested = True
-    R.ob(bool(lbi) and (nested or (bool(dbw) and fn.dominates(lbi[0].bb, dbw[0].bb))) and bool(nt) and must_pass_on_success(fn, [c.bb for c in nt]), "DOM-order",
+    R.ob(bool(lbi) and (nested or (bool(dbw) and fn.sdominates(lbi[0].bb, dbw[0].bb))) and bool(nt) and must_pass_on_success(fn, [c.bb for c in nt]), "DOM-order",
          fn.where(), "DOM-order|clear_caches|reset<drop",
          "clear_caches does not reset the unfinished-block info no later than it drops the caches, or does not wake the waiters on every success path",
          sample={"rule": "DOM-order", "fn": "engine.clear_caches", "order": "LastBlockInfo reset, notify, db.clear_caches"})
